@@ -46,10 +46,10 @@ def copy_master(master, dst):
 
 STORE_DIRS = {
     "stage-transfer": ["cache"], "index-save": ["cache"], "index-save-sparse": ["cache"], "store-to-store": ["dest"], "store-to-store-expanded": ["dest"], "upload-staging": ["cache"],
-    "push-remote": ["dest"], "push-expanded": ["dest"], "add-files": ["cache"],
+    "push-remote": ["dest"], "push-expanded": ["dest"], "add-files": ["cache"], "store-to-store-index": ["dest"], "index-save-hardlink": ["cache"],
 }
-NEEDS_SRC = {"store-to-store", "store-to-store-expanded", "push-remote", "push-expanded"}
-HAS_STATE = {"stage-transfer", "index-save", "index-save-sparse", "store-to-store", "store-to-store-expanded", "upload-staging", "add-files"}
+NEEDS_SRC = {"store-to-store", "store-to-store-index", "store-to-store-expanded", "push-remote", "push-expanded"}
+HAS_STATE = {"store-to-store-index", "index-save-hardlink", "stage-transfer", "index-save", "index-save-sparse", "store-to-store", "store-to-store-expanded", "upload-staging", "add-files"}
 
 
 def make_master(ctx, rng, scenario, d):
